@@ -523,27 +523,32 @@ func msgFuncOf(o TestOpts) z.IssueFmtFunc {
 	}
 }
 
-// buildStructViaMerge assembles the struct schema from three partial schemas: fields, struct-level tests and post-transforms
-// are dealt out in order (part k gets the k-th third of each list), then part1.Merge(part2, part3).
+// buildStructViaMerge assembles the struct schema from partial schemas: fields (in visit order), struct-level tests and
+// post-transforms are cut at n.MergeCuts, then part1.Merge(part2, part3) (or part1.Merge(part2)). Afterwards part1 is merged once
+// more with an inert schema and that result is dropped: a schema derived later from the same operand must not matter.
 func (b *builder) buildStructViaMerge(n *Node, order []int, all z.Schema) z.ZogSchema {
 	parts := [3]*z.StructSchema{}
-	third := func(i, total int) int {
-		if total == 0 {
+	part := func(list, i int) int {
+		c := n.MergeCuts[list]
+		switch {
+		case i < c[0]:
 			return 0
+		case i < c[1] || n.MergeTwo:
+			return 1 // (monitors may have appended tests / transforms after the cuts were chosen)
 		}
-		return i * 3 / total
+		return 2
 	}
 	scs := [3]z.Schema{{}, {}, {}}
 	for pos, i := range order {
 		f := &n.Fields[i]
-		scs[third(pos, len(order))][f.Key] = all[f.Key]
+		scs[part(0, pos)][f.Key] = all[f.Key]
 	}
 	for k := range parts {
 		parts[k] = z.Struct(scs[k])
 	}
 	for i := range n.Tests {
 		t := &n.Tests[i]
-		k := third(i, len(n.Tests))
+		k := part(1, i)
 		o := optList(t.Opts)
 		if t.ViaTest {
 			parts[k] = parts[k].Test(reusable(b.customTestPtr(n, t), t))
@@ -552,8 +557,16 @@ func (b *builder) buildStructViaMerge(n *Node, order []int, all z.Schema) z.ZogS
 		}
 	}
 	for i := range n.Posts {
-		k := third(i, len(n.Posts))
+		k := part(2, i)
 		parts[k] = parts[k].PostTransform(b.post(n, &n.Posts[i]))
 	}
-	return parts[0].Merge(parts[1], parts[2])
+	var merged *z.StructSchema
+	if n.MergeTwo {
+		merged = parts[0].Merge(parts[1])
+	} else {
+		merged = parts[0].Merge(parts[1], parts[2])
+	}
+	inert := z.Struct(z.Schema{}).TestFunc(func(any, z.Ctx) bool { return true }).PostTransform(func(any, z.Ctx) error { return nil })
+	_ = parts[0].Merge(inert)
+	return merged
 }
